@@ -61,6 +61,8 @@ pub struct Resolver<'a> {
     guard_ids: BTreeSet<(usize, u32)>,
     /// set when the program binds one name twice in one pattern group (Gleam rejects it)
     pub invalid: bool,
+    /// inside a constant's initialiser: `a.b` can only be a module access there
+    in_const: bool,
 }
 
 const BUILTIN_CTORS: &[&str] = &["Ok", "Error", "Nil", "True", "False"];
@@ -68,7 +70,7 @@ const BUILTIN_TYPES: &[&str] = &["Int", "Float", "String", "Bool", "Nil", "List"
 
 impl<'a> Resolver<'a> {
     pub fn new(mods: &'a [(String, Module)]) -> Self {
-        let mut r = Resolver { mods, exports: vec![], uses: vec![], decls: vec![], guard_ids: BTreeSet::new(), invalid: false };
+        let mut r = Resolver { mods, exports: vec![], uses: vec![], decls: vec![], guard_ids: BTreeSet::new(), invalid: false, in_const: false };
         for (mi, (_, m)) in mods.iter().enumerate() {
             let mut e = Exports::default();
             for it in &m.items {
@@ -229,7 +231,9 @@ impl<'a> Resolver<'a> {
                         self.ty(mi, &sc, t);
                     }
                     let mut env = vec![];
+                    self.in_const = true;
                     self.expr(mi, &sc, &mut env, value);
+                    self.in_const = false;
                 }
                 Item::TypeDef { variants, .. } => {
                     for v in variants {
@@ -488,7 +492,7 @@ impl<'a> Resolver<'a> {
                 // module access: `m.x` where m is an import accessor not shadowed by a local
                 if let Expr::Var(m) = &**b {
                     let (mn, _) = split(m);
-                    let shadowed = env.iter().any(|(k, _)| k == mn) || sc.values.contains_key(mn);
+                    let shadowed = !self.in_const && (env.iter().any(|(k, _)| k == mn) || sc.values.contains_key(mn));
                     if !shadowed {
                         if let Some(idx) = sc.modules.get(mn) {
                             match idx {
